@@ -12,9 +12,10 @@ NOTE = ("trusted base: rustc nightly front end + MIR construction (facts are dum
 CHECKS = {
     "C12": dict(
         technique="static analysis: who-may-call + type-table walk + intraprocedural flow over resolved MIR; trait-solver auto-trait facts; compile_fail witnesses (thorough)",
-        text="Decides five structural necessary conditions of determinism/isolation exactly for every function of the crate: no "
+        text="Decides six structural necessary conditions of determinism/isolation exactly for every function of the crate: no "
              "shared mutable statics, ambient clock/entropy only in the injectable platform providers, only unseeded hashers, "
-             "addresses only in comparison/hash positions and never iterated observably, and !Send/!Sync of every handle type. "
+             "addresses only in comparison/hash positions, never iterated observably and never used as a sort key, and !Send/!Sync of "
+             "every handle type. "
              "All obligations discharge on the current tree. It does not decide bit-identical traces.",
         ref="4/C12"),
 }
@@ -73,11 +74,11 @@ CHECKS.update({
 
 CHECKS.update({
     "C01": dict(
-        technique="static analysis: sibling agreement of frame pop sites, match-arm call-graph reachability for coercions, emit/handle pairing between compiler and VM, type walk of the property container, opcode table coverage, operand-role signatures of sibling arms, in-place copy direction test",
+        technique="static analysis: sibling agreement of frame pop sites, match-arm call-graph reachability for coercions, emit/handle pairing between compiler and VM, type walk of the property container, opcode table coverage, operand-role signatures of sibling arms, in-place copy direction test, placeholder-container coverage at context pop",
         text="Decides seven structural necessary conditions of conformance (not the value of any operator): trampoline frame pop "
              "sites restore the same VM fields; operator arms convert register operands through the hook-aware coercion; "
              "break/continue/return pop block scopes on exactly one side; the own-property container is insertion ordered; "
-             "every opcode is emitted, handled and (for jumps) patched; plain/computed sibling arms agree on operand roles; a hand-written "
+             "every opcode is emitted, handled and (for jumps) patched, and no pending jump placeholder is dropped with its context; plain/computed sibling arms agree on operand roles; a hand-written "
              "copy inside one vector is dominated by a direction test. Today's deviations are genuine and listed with failing "
              "programs; the frame-restore defect was repaired (fix: commit).",
         ref="4/C01"),
@@ -90,10 +91,10 @@ CHECKS.update({
              "combinator settlement) are not decided.",
         ref="4/C08"),
     "C19": dict(
-        technique="static analysis: sibling comparison of transitive effect signatures (field writes, ledger takes, constructions) on corresponding CFG fragments: match arms of shared enums, dominating regions",
+        technique="static analysis: sibling comparison of transitive effect signatures (field writes, ledger takes, constructions) on corresponding CFG fragments: match arms of shared enums, dominating regions; exit-path search from the non-empty edge of the import test",
         text="Decides sibling agreement on corresponding fragments: the two VmResult->StepResult mappers per variant, outcome "
              "classes of every VmResult consumer per role, the ModuleExport finalisers per variant, the frame pop sites, and the "
-             "tsrun_step/tsrun_run wrappers. The module-role disagreement (a dependency whose body suspends fails, the entry "
+             "tsrun_step/tsrun_run wrappers; a non-empty set of missing imports has NeedImports as its only outcome in every entry point. The module-role disagreement (a dependency whose body suspends fails, the entry "
              "module suspends) is genuine and listed with failing programs. Equality of results is not decided.",
         ref="4/C19"),
 })
@@ -169,11 +170,12 @@ CHECKS.update({
 
 CHECKS.update({
     "C16": dict(
-        technique="static analysis: representation-invariant check at every construction site of PropertyKey::String (operand provenance through conversions, canonicaliser discovery, one level of caller provenance, reasoned identifier classes) + dominance of the JSON exporter's recursion by its visited-set test",
-        text="Decides two structural clauses: PropertyKey::String never holds a canonical array index (all ~350 construction sites "
+        technique="static analysis: representation-invariant check at every construction site of PropertyKey::String (operand provenance through conversions, canonicaliser discovery, one level of caller provenance, reasoned identifier classes) + dominance of the JSON exporter's recursion by its visited-set test + serializer/text-substitution co-occurrence",
+        text="Decides three structural clauses: PropertyKey::String never holds a canonical array index (all ~350 construction sites "
              "classified; the 12 sites that built it from dynamic text - JSON.parse, Object.groupBy, the Rust and C host APIs - "
              "were reproduced and repaired, fix: commit) and the JSON exporter refuses cycles (its recursion is dominated by the "
-             "visited-set test and the set is restored). Fidelity of strings, numbers and ordering is a matter of values and is "
+             "visited-set test and the set is restored); serialized JSON text is never rewritten by a structure-blind substitution. "
+             "Fidelity of strings, numbers and ordering is a matter of values and is "
              "not decided.",
         ref="4/C16"),
 })
